@@ -342,6 +342,9 @@ func quote(s string) string { return fmt.Sprintf("%q", s) }
 func guardNew(f func() (any, error)) (v any, err error) {
 	defer func() {
 		if r := recover(); r != nil {
+			if simrt.IsAbort(r) {
+				panic(r) // the run was aborted: unwind the task, do not go on
+			}
 			v, err = nil, fmt.Errorf("panic: %v", r)
 		}
 	}()
